@@ -187,15 +187,19 @@ PROPS['C01'] = {
 
 PROPS['C02'] = {
     'level': 'other',
-    'units': ['C02/band'],
+    'units': ['C02/band', 'C02/sparse', 'C01/pairwise'],
     'kani': [],
     'oracle': 'C02',
-    'decided': ['Band::new (empty band of the right shape), add_entry (the band grows, stays inside the matrix, and contains every cell within distance w of the position), add_gap (index-safe, grows; interpolation arithmetic within u32 for gap rectangles up to 2^31 cells), add_kmer (index-safe for every k-mer inside the matrix, grows, stays inside the matrix), full_matrix (covers every cell), num_cells (exactly the number of banded cells, no overflow below 2^31 rows/cols)'],
-    'undecided': ['soundness/exactness of the banded DP (compute_alignment), its MAX_CELLS guard, termination of the post-traceback completion, all custom_with_* entry points, Band::set_boundaries/create*',
-                  'add_kmer coverage (exact equality with the union of add_entry over the diagonal) is not proved, only safety and growth'],
-    'trusted': ['cmp::{min,max} std specs', 'derived Clone of Range (field-wise)'],
-    'level_text': 'Verus proves the band geometry layer of the banded aligner (shape, growth, coverage around an entry, index and overflow safety of all four band builders, exact cell count); the banded dynamic program itself is not decided by this check.',
-    'level_note': 'Level other (partial): band geometry only. Trusted: std min/max/Range::clone specs, Verus/Z3.',
+    'decided': ['Band::new (empty band of the right shape), add_entry (the band grows, stays inside the matrix, and contains every cell within distance w of the position), add_gap (index-safe, grows; u64 interpolation cannot overflow for any u32 corners - defect D8 fixed), add_kmer (index-safe for every k-mer inside the matrix, grows, stays inside the matrix, contains the k diagonal cells of the k-mer), set_boundaries (index-, underflow- and overflow-safe in all start/end branches; grows), full_matrix (covers every cell), num_cells (exactly the number of banded cells, no overflow below 2^31 rows/cols)',
+                'Band::create_from_match_path: for every k-mer backbone (`chain`: valid indices, k-mers inside the matrix, each continuing its predecessor or starting no earlier than its last cell) the band has the shape (|x|+1) x (|y|+1), stays inside the matrix and contains all k diagonal cells of every k-mer on the path; without matches it is the full matrix',
+                'Band::create_with_matches: same, taking the backbone from sparse::sdpkpp (ASSUMED contract: its path is a backbone); (u32,u32)::continues',
+                'sparse::sdpkpp_union_lcskpp_path: the union of the LCSk++ chain and the SDP chain is again a backbone (so the band builder precondition holds for the union entry point), given the assumed contracts of lcskpp and sdpkpp',
+                'Traceback::{with_capacity, resize, init, set, get} and TracebackCell (unit shared with C01): after init every cell is start-marked, independent of the previous alignment (reuse history)'],
+    'undecided': ['soundness/exactness of the banded DP (compute_alignment), its MAX_CELLS guard, termination of the post-traceback completion, the Aligner::custom_with_* / global / semiglobal / local wrappers',
+                  'sparse::lcskpp, sparse::sdpkpp, find_kmer_matches*, expand_kmer_matches (assumed backbone contract only)'],
+    'trusted': ['cmp::{min,max}, Ord::cmp std specs', 'derived Clone of Range (field-wise)', '[T]::binary_search (weak: Ok(i) only at an equal element) and Result::unwrap_or std specs', 'ASSUMED: sparse::lcskpp / sparse::sdpkpp return a k-mer backbone', 'as C01 for the shared unit'],
+    'level_text': 'Verus proves the band geometry layer of the banded aligner (shape, growth, coverage of the whole k-mer backbone, index and overflow safety of all band builders, exact cell count), the union-path builder and the traceback matrix reset; the banded dynamic program itself is not decided by contracts (bounded stand-in only).',
+    'level_note': 'Level other (partial): band construction + traceback reset. Trusted: std specs listed in evidence; assumed backbone contract of the sparse DP.',
 }
 
 PROPS['C03'] = {
